@@ -18,6 +18,8 @@ rm -f join/tests/demo.rs
 echo "$id: suite_with_change=[$suite] demo_with_change=[$with] demo_without=[$without]"
 okp=$(echo "$suite" | grep -c "^80 passed 0 failed")
 fw=$(echo "$with" | grep -c "FAILED")
+# a demo that no longer compiles with the change (e.g. a valid macro input is now rejected) also fails with it
+if [ "$fw" = 0 ] && echo "$with" | grep -q "error" && ! echo "$with" | grep -q "test result: ok"; then fw=1; fi
 pw=$(echo "$without" | grep -c "test result: ok")
 if [ "$okp" = 1 ] && [ "$fw" = 1 ] && [ "$pw" = 1 ]; then
   d=/verif/seeded/$id; mkdir -p $d; cp "$patch" $d/patch.diff; cp "$demo" $d/demo.rs; [ -n "$notes" ] && cp "$notes" $d/notes.md
